@@ -97,9 +97,10 @@ def gen_ast(rng):
     ring = rng.choice([0, 0, 0, 3, 4])  # the side output goes to a ring of `ring` slots: an arith.remui among the index ops
     same_array = rng.random() < 0.08  # the result of iteration i is stored to tile i+1 of the array the first stage loads from
     alias_inner = alias is not None and rng.random() < 0.5  # ... the view is taken inside the loop body (among the index ops)
+    nested_index = rng.random() < 0.08  # the tile offset is computed inside a region of an index op (an scf.if yielding it)
     carried_off = rng.random() < 0.08  # the tile offset is carried through the loop as an iter_arg and advanced among the index ops
     init_acc = rng.random() < 0.08 and accumulator is None  # one buffer is written by two stages: initialised, then accumulated into
-    return {"nst": nst, "tmps": ntmp, "skip": skip is not None, "tail": tail, "ring": ring, "post": post, "alias": alias, "lb_shared": lb_shared, "alloc_in_loop": alloc_in_loop and alias is None and post is None and not scratch_views, "scratch_views": scratch_views and alias is None and post is None, "accumulator": accumulator, "same_array": same_array, "alias_inner": alias_inner, "init_acc": init_acc, "carried_off": carried_off, "const_bounds": rng.random() < 0.75, "stages": stages}
+    return {"nst": nst, "tmps": ntmp, "skip": skip is not None, "tail": tail, "ring": ring, "post": post, "alias": alias, "lb_shared": lb_shared, "alloc_in_loop": alloc_in_loop and alias is None and post is None and not scratch_views, "scratch_views": scratch_views and alias is None and post is None, "accumulator": accumulator, "same_array": same_array, "alias_inner": alias_inner, "init_acc": init_acc, "carried_off": carried_off, "nested_index": nested_index and not carried_off, "const_bounds": rng.random() < 0.75, "stages": stages}
 
 
 TVS = 'memref<' + str(E) + 'xi32, strided<[1], offset: {off}>, "L1">'
@@ -172,6 +173,14 @@ def emit(ast, env=None) -> str:
         e(f"    scf.for %i = {lb} to {ub} step {st} {{")
     if ast.get("carried_off"):
         pass
+    elif ast.get("nested_index"):
+        e("      %ni_c = arith.cmpi eq, %i, %i : index")
+        e("      %off = scf.if %ni_c -> (index) {")
+        e("        %ni_a = arith.muli %i, %cE : index")
+        e("        scf.yield %ni_a : index")
+        e("      } else {")
+        e("        scf.yield %i : index")
+        e("      }")
     elif ast.get("lb_shared") and ast["const_bounds"] and env["lb"] == 0:
         e("      %off0 = arith.muli %i, %cE : index")
         e("      %off = arith.addi %off0, %lb : index")
@@ -265,7 +274,7 @@ def shrink_ast(ast):
         yield dict(ast, scratch_views=False)
     if ast.get("accumulator") is not None:
         yield dict(ast, accumulator=None)
-    for flag in ("same_array", "alias_inner", "init_acc", "carried_off"):
+    for flag in ("same_array", "alias_inner", "init_acc", "carried_off", "nested_index"):
         if ast.get(flag):
             yield dict(ast, **{flag: False})
     for s_, ops_ in enumerate(ast["stages"]):
